@@ -230,3 +230,24 @@ def scratch_cleared(ctx, f, rep, rule):
                 rep.check(bool(cl), rule, hd.nname, 'updates_buf is cleared before being filled or taken in the same call',
                           site=e['span'], construct='scratch-cleared')
     rep.floor(rule, n, 2, 'uses of updates_buf')
+
+
+CTOR_OF = {'members': 'member::Members::new', 'updates': 'broadcast::Broadcasts::new',
+           'custom_broadcasts': 'broadcast::Broadcasts::new', 'probe': 'probe::Probe::new'}
+
+
+def check_state_fields(f, rep, rule, fields):
+    """Long-lived state of a Foca instance is built once, by the constructor, and never swapped out afterwards: the
+    who-may-write rules speak about the fields *inside* Members / Broadcasts / Probe, which says nothing if the whole
+    value can be replaced (`self.updates = Broadcasts::new()` empties the backlog without touching `flip`)."""
+    from .lib.effects import Effects
+    eff = Effects(f)
+    for fld in fields:
+        w = sorted(eff.writers_of('Foca', fld, kinds=('W',)))
+        rep.check(w == [], rule, 'Foca', 'Foca.%s is never reassigned after construction' % fld,
+                  construct='state-field-never-replaced:' + fld, facts={'writers': w})
+        ctor = CTOR_OF.get(fld)
+        if ctor:
+            cs = sorted({c[0].nname for c in f.callers_of(lambda x, c_=ctor: x == c_)})
+            rep.check(cs == ['Foca::with_custom_broadcast'], rule, ctor, 'constructed only by the Foca constructor',
+                      construct='state-ctor-callers:' + fld, facts={'callers': cs})
